@@ -142,7 +142,7 @@ impl Ctx {
 
         let mut known_list = Vec::new();
         for (id, (desc, n, first)) in &known_hits {
-            println!("KNOWN-FINDING: property={} {} {} [{} case(s), e.g. {}]", self.prop, id, desc, n, first);
+            println!("KNOWN-FINDING: property={} {} {} [{} case(s), e.g. {}]", self.prop, id, desc, n, first.chars().take(300).collect::<String>());
             known_list.push(json!({"id": id, "cases": n, "example": first}));
         }
         for k in known.iter().filter(|k| k.status == "known" && !known_hits.contains_key(&k.id)) {
@@ -168,7 +168,7 @@ impl Ctx {
             });
             let _ = std::fs::write(&path, serde_json::to_string_pretty(&body).unwrap());
             println!("VIOLATION property={} replay={}", self.prop, path.display());
-            println!("  signature={} :: {}", f.signature, f.summary);
+            println!("  signature={} :: {}", f.signature, f.summary.chars().take(400).collect::<String>());
             viol_list.push(json!({"signature": f.signature, "summary": f.summary, "cases": n}));
         }
         if violations.len() > MAX_REPLAYS {
